@@ -184,10 +184,121 @@ def _opaque(hint):
     return ast.Name(id='<%s#%d>' % (hint, _opaque_n[0]), ctx=ast.Load())
 
 
-def sym_paths(fi, decide, limit=2048, fold=None):
+def _replace_node(expr, old, new):
+    """Copy of expr in which the node ``old`` (by identity) is replaced by a copy of ``new``."""
+    def rec(n):
+        if n is old:
+            return copy.deepcopy(new)
+        if isinstance(n, ast.AST):
+            kw = {}
+            for f, v in ast.iter_fields(n):
+                if isinstance(v, list):
+                    kw[f] = [rec(x) for x in v]
+                else:
+                    kw[f] = rec(v)
+            m = type(n)(**kw)
+            return ast.copy_location(m, n) if hasattr(n, 'lineno') else m
+        return n
+    return rec(expr)
+
+
+def sym_paths(fi, decide, limit=2048, fold=None, resolve=None):
     """Enumerate the paths of an acyclic function body symbolically.  ``decide(atom)`` -> True / False / None for a
-    test atom whose locals were substituted by their values; None = free (both outcomes are followed).  Loops, try
-    and with statements are outside the modelled subset (AnalysisError)."""
+    test atom whose locals were substituted by their values; None = free (both outcomes are followed).
+    ``resolve(call)`` -> FuncInfo of a callee whose body is to be followed (its paths are spliced in, parameters bound
+    to the argument expressions) or None (the call stays an opaque expression).  Loops, try and with statements are
+    outside the modelled subset (AnalysisError; a callee using them is simply not followed)."""
+    ident = lambda x: x
+    fold_ = fold or ident
+    opaque_calls = set()
+    depth = [0]
+
+    def first_call(expr):
+        todo = [expr]
+        while todo:
+            n = todo.pop(0)
+            if isinstance(n, ast.Call) and id(n) not in opaque_calls:
+                if resolve(n) is not None:
+                    return n
+                opaque_calls.add(id(n))
+            if isinstance(n, (ast.Lambda, ast.ListComp, ast.SetComp, ast.DictComp, ast.GeneratorExp)):
+                continue
+            if isinstance(n, ast.BoolOp):
+                todo.insert(0, n.values[0])
+                continue
+            if isinstance(n, ast.IfExp):
+                todo.insert(0, n.test)
+                continue
+            todo = list(ast.iter_child_nodes(n)) + todo
+        return None
+
+    def bind_call(callee, call):
+        a = callee.node.args
+        if a.vararg or a.kwarg or any(isinstance(x, ast.Starred) for x in call.args) or any(k.arg is None for k in call.keywords):
+            return None
+        params = [p.arg for p in a.posonlyargs + a.args]
+        defaults = dict(zip(params[len(params) - len(a.defaults):], a.defaults)) if a.defaults else {}
+        for p, d in zip(a.kwonlyargs, a.kw_defaults):
+            if d is not None:
+                defaults[p.arg] = d
+        env = {}
+        static = any(isinstance(d, ast.Name) and d.id == 'staticmethod' for d in callee.node.decorator_list)
+        if callee.cls is not None and not static:
+            if not (isinstance(call.func, ast.Attribute) and params):
+                return None
+            recv = params.pop(0)
+            if not (isinstance(call.func.value, ast.Name) and call.func.value.id == recv):
+                env[recv] = call.func.value
+        if len(call.args) > len(params):
+            return None
+        for p, v in zip(params, call.args):
+            env[p] = v
+        for k in call.keywords:
+            if k.arg in env or k.arg not in params + [x.arg for x in a.kwonlyargs]:
+                return None
+            env[k.arg] = k.value
+        for p in params + [x.arg for x in a.kwonlyargs]:
+            if p not in env:
+                if p not in defaults:
+                    return None
+                env[p] = defaults[p]
+        return env
+
+    def expand(expr, st):
+        """[(state, expr with the followed calls replaced by their symbolic results)]; a state whose callee raised
+        carries the terminal."""
+        if resolve is None or expr is None:
+            return [(st, expr)]
+        call = first_call(expr)
+        if call is None:
+            return [(st, expr)]
+        callee = resolve(call)
+        env = bind_call(callee, call) if depth[0] < 3 else None
+        results = None
+        if env is not None:
+            depth[0] += 1
+            try:
+                results = run_block(callee.node.body, [_St(env, list(st.trace))])
+            except AnalysisError:
+                results = None
+            finally:
+                depth[0] -= 1
+        if results is None:
+            opaque_calls.add(id(call))
+            return expand(expr, st)
+        out = []
+        for r in results:
+            st2 = _St(dict(st.env), r.trace, None)
+            if r.term is not None and r.term[0] == 'raise':
+                st2.term = r.term
+                out.append((st2, None))
+                continue
+            val = r.term[1] if r.term is not None and r.term[0] == 'return' and r.term[1] is not None else ast.Constant(value=None)
+
+            new = copy.deepcopy(val) if expr is call else _replace_node(expr, call, val)
+            out.extend(expand(new, st2))
+        return out
+
     def split(test, st, subst=True):
         if isinstance(test, ast.UnaryOp) and isinstance(test.op, ast.Not):
             return [(s, not r) for s, r in split(test.operand, st, subst)]
@@ -197,7 +308,7 @@ def sym_paths(fi, decide, limit=2048, fold=None):
             for v in test.values:
                 nxt = []
                 for s, r in cur:
-                    if r is not is_and:
+                    if r is not is_and or s.term is not None:
                         nxt.append((s, r))
                     else:
                         nxt.extend(split(v, s, subst))
@@ -206,12 +317,24 @@ def sym_paths(fi, decide, limit=2048, fold=None):
         if isinstance(test, ast.IfExp):
             out = []
             for s, r in split(test.test, st, subst):
-                out.extend(split(test.body if r else test.orelse, s, subst))
+                if s.term is not None:
+                    out.append((s, r))
+                else:
+                    out.extend(split(test.body if r else test.orelse, s, subst))
             return out
         atom = _subst(test, st.env) if subst else test
-        if fold is not None and subst:
-            atom = fold(atom)
-        if subst and (isinstance(atom, (ast.BoolOp, ast.IfExp)) or (isinstance(atom, ast.UnaryOp) and isinstance(atom.op, ast.Not))):
+        if subst:
+            out = []
+            for s2, a2 in expand(atom, st):
+                if s2.term is not None:
+                    out.append((s2, True))
+                else:
+                    out.extend(split_atom(fold_(a2), test, s2))
+            return out
+        return split_atom(atom, test, st)
+
+    def split_atom(atom, test, st):
+        if isinstance(atom, (ast.BoolOp, ast.IfExp)) or (isinstance(atom, ast.UnaryOp) and isinstance(atom.op, ast.Not)):
             return split(atom, st, False)
         inv = False
         if isinstance(atom, ast.Compare) and len(atom.ops) == 1 and type(atom.ops[0]) in _FLIP:
@@ -259,25 +382,37 @@ def sym_paths(fi, decide, limit=2048, fold=None):
                 raise AnalysisError('%s: more than %d symbolic paths' % (fi.qualname, limit))
         return states
 
+    def values(expr, st):
+        """[(state, substituted value)] of an expression evaluated in state st (followed calls spliced in)."""
+        return expand(_subst(expr, st.env), st)
+
     def run_stmt(s, st):
         if isinstance(s, (ast.Expr, ast.Pass, ast.Import, ast.ImportFrom, ast.Assert, ast.Global, ast.Nonlocal, ast.Delete)):
             return [st]
-        if isinstance(s, ast.Assign):
-            v = _subst(s.value, st.env)
-            for t in s.targets:
-                bind(st, t, v)
-            return [st]
-        if isinstance(s, ast.AnnAssign):
-            if s.value is not None:
-                bind(st, s.target, _subst(s.value, st.env))
-            return [st]
+        if isinstance(s, (ast.Assign, ast.AnnAssign)):
+            if s.value is None:
+                return [st]
+            out = []
+            for s2, v in values(s.value, st):
+                if s2.term is None:
+                    for t in (s.targets if isinstance(s, ast.Assign) else [s.target]):
+                        bind(s2, t, v)
+                out.append(s2)
+            return out
         if isinstance(s, ast.AugAssign):
             if isinstance(s.target, ast.Name):
                 st.env[s.target.id] = _subst(ast.BinOp(left=ast.Name(id=s.target.id, ctx=ast.Load()), op=s.op, right=s.value), st.env)
             return [st]
         if isinstance(s, ast.Return):
-            st.term = ('return', (fold or (lambda x: x))(_subst(s.value, st.env)) if s.value is not None else None, s)
-            return [st]
+            if s.value is None:
+                st.term = ('return', None, s)
+                return [st]
+            out = []
+            for s2, v in values(s.value, st):
+                if s2.term is None:
+                    s2.term = ('return', fold_(v), s)
+                out.append(s2)
+            return out
         if isinstance(s, ast.Raise):
             st.term = ('raise', _subst(s.exc, st.env) if s.exc is not None else None, s)
             return [st]
@@ -294,6 +429,41 @@ def sym_paths(fi, decide, limit=2048, fold=None):
         if st.term is None:
             st.term = ('fall', None, None)
     return out
+
+
+def follow_resolver(repo, fi, keep=()):
+    """resolve(call) for sym_paths: plain functions / methods of the analysed tree named directly (f(..), self.m(..),
+    cls.m(..), Class.m(..)); names in ``keep`` stay opaque."""
+    def resolve(call):
+        f = call.func
+        m = None
+        try:
+            if isinstance(f, ast.Attribute) and isinstance(f.value, ast.Name):
+                ci = None
+                if f.value.id in ('self', 'cls') and fi.cls is not None:
+                    ci = fi.cls
+                elif f.value.id in fi.mod.classes:
+                    ci = fi.mod.classes[f.value.id]
+                if ci is not None:
+                    m = repo.find_method(ci, f.attr)
+                    if m is not None and f.value.id not in ('self', 'cls') and not any(
+                            isinstance(d, ast.Name) and d.id in ('staticmethod', 'classmethod') for d in m.node.decorator_list):
+                        m = None
+            elif isinstance(f, ast.Name):
+                kind, mm, obj = repo.resolve(fi.mod, f.id)
+                if kind == 'func':
+                    m = obj
+        except Exception:
+            m = None
+        if m is None or m.mod.external or m.name in keep or m is fi or not isinstance(m.node, ast.FunctionDef):
+            return None
+        if any(isinstance(d, ast.Name) and d.id == 'property' for d in m.node.decorator_list):
+            return None
+        for n in ast.walk(m.node):
+            if isinstance(n, (ast.Yield, ast.YieldFrom, ast.Await)):
+                return None
+        return m
+    return resolve
 
 
 # ---------------------------------------------------------------------------------------------- abstract result types
@@ -861,6 +1031,24 @@ class _Interp(object):
         return sig[1] if sig is not None and sig[0] == 'return' else None
 
 
+def eval_expr(repo, fi, expr, env):
+    """('value', v) | ('raise', name) | ('unsupported', why) for an expression over the given concrete locals (``self`` /
+    ``cls`` stand for the class of fi)."""
+    it = _Interp(repo)
+    env = dict(env)
+    if fi.cls is not None:
+        env.setdefault('self', ('<receiver>', fi.cls))
+        env.setdefault('cls', ('<class>', fi.cls))
+    try:
+        return ('value', it.ev(expr, env, fi, 0))
+    except _PyRaise as pr:
+        return ('raise', type(pr.exc).__name__)
+    except _Unsupported as u:
+        return ('unsupported', str(u))
+    except RecursionError:
+        return ('unsupported', 'recursion')
+
+
 def eval_pure(repo, fi, args):
     """('value', v) | ('raise', exception class name) | ('unsupported', why) for fi(*args) (receiver supplied
     automatically for methods / classmethods)."""
@@ -1031,6 +1219,114 @@ _JSON_NO = [b'x', b'hello world', b'{', b'[', b'}', b']', b'{]', b'[}', b'}{', b
             b'plain [text] x', b'x{"a": 1}', b'<!doctype html><html>{}</html>', b'\xff\xfe']
 
 
+_TEXT_BODIES = (
+    [(v, 'application/json') for v in _JSON_YES['object'] + _JSON_YES['array']] +
+    [(b'{"a": "<html>"}', 'application/json'), (b'[' + b'1, ' * 5000 + b'1]', 'application/json'),
+     (b'<html><body>x</body></html>', 'text/html'), (b'<!doctype html>\n<html lang="en"><head></head></html>', 'text/html'),
+     (b'  <html>\xc3\xa9</html>', 'text/html'), (b'see <html> for {details}', 'text/html'),
+     (b'', 'text/plain'), (b'hello world', 'text/plain'), (b'{', 'text/plain'), (b'[1, 2', 'text/plain'), (b'x{"a": 1}', 'text/plain'),
+     (b'{"a": 1} trailing', 'text/plain'), (b'caf\xc3\xa9', 'text/plain'), (b'}{', 'text/plain')])
+
+
+def _text_by_evaluation(rep, repo, simple, rr, ctx_param, paths, label_of, path_text, term_text):
+    """R17.c for text results when the tests of the text branch are not the two sniffs as such: run every
+    representative body down the symbolic paths (free tests are evaluated on the body) and compare the label."""
+    for T in ('str', 'bytes'):
+        per_label = {}
+        for body, want in _TEXT_BODIES:
+            value = body if T == 'bytes' else body.decode('utf-8')
+            taken = []
+            for st in paths[T]:
+                ok = True
+                for key, atom, orig, pol, decided in st.trace:
+                    if decided:
+                        continue
+                    r = eval_expr(repo, rr, atom, {ctx_param: value})
+                    if r[0] == 'unsupported':
+                        raise AnalysisError('render_response: the test %s of the text branch is neither a recognised sniff nor '
+                                            'evaluable (%s)' % (short(orig, 60), r[1]))
+                    if r[0] == 'raise':
+                        taken = [(st, 'raises %s evaluating %s' % (r[1], short(orig, 50)))]
+                        ok = None
+                        break
+                    if bool(r[1]) is not pol:
+                        ok = False
+                        break
+                if ok is None:
+                    break
+                if ok:
+                    taken.append((st, None))
+            problem = None
+            if len(taken) != 1:
+                problem = 'is served by %d paths' % len(taken)
+            elif taken[0][1]:
+                problem = 'on the path [%s] %s' % (path_text(taken[0][0]), taken[0][1])
+            else:
+                st = taken[0][0]
+                mt, b = label_of(st)
+                if mt != want:
+                    problem = 'must be labelled %s, but the path [%s] %s' % (want, path_text(st), term_text(st))
+                else:
+                    rb = eval_expr(repo, rr, b, {ctx_param: value}) if b is not None else ('value', None)
+                    if rb[0] == 'unsupported':
+                        raise AnalysisError('render_response: the response body %s cannot be evaluated (%s)' % (short(b, 60), rb[1]))
+                    if rb[0] != 'value' or rb[1] not in (value, body):
+                        problem = 'gets the body %s, not the endpoint result' % short(b, 60)
+            per_label.setdefault(want, []).append((value, problem, taken[0][0] if taken else None))
+        for want, res in sorted(per_label.items()):
+            bad = [(v, pr, st) for v, pr, st in res if pr]
+            rep.check('R17.c', '%s::label %s: %s result (evaluated)' % (rr.key, want, T), not bad,
+                      'all %d representative %s bodies that must be %s are labelled so' % (len(res), T, want) if not bad else
+                      'the %s result %r %s' % (T, bad[0][0] if len(bad[0][0]) < 60 else bad[0][0][:57] + type(bad[0][0])(b'...' if T == 'bytes' else '...'), bad[0][1]),
+                      simple, bad[0][2].term[2] if bad and bad[0][2] is not None and bad[0][2].term[2] is not None else rr.node)
+
+
+def _guess_by_role(repo, mod, rr):
+    """The JSON guess under another name: the one single-argument, bool-valued function of the module that
+    render_response (or a private helper it calls) applies -- looked up in the source as written, since the loader
+    dissolves private helpers into their callers."""
+    try:
+        raw = ast.parse(mod.src)
+    except SyntaxError:
+        return None
+    defs = {}
+    for st in raw.body:
+        if isinstance(st, ast.FunctionDef):
+            defs[st.name] = st
+        elif isinstance(st, ast.ClassDef):
+            for m in st.body:
+                if isinstance(m, ast.FunctionDef):
+                    defs['%s.%s' % (st.name, m.name)] = m
+    cls = rr.cls.qualname if rr.cls is not None else None
+    start = defs.get(rr.qualname)
+    if start is None:
+        return None
+    seen, cands, todo = set(), [], [(start, 0)]
+    while todo:
+        fn, depth = todo.pop()
+        for n in ast.walk(fn):
+            if not isinstance(n, ast.Call):
+                continue
+            f = n.func
+            q = None
+            if isinstance(f, ast.Name):
+                q = f.id
+            elif isinstance(f, ast.Attribute) and isinstance(f.value, ast.Name) and cls and f.value.id in ('self', 'cls', cls):
+                q = '%s.%s' % (cls, f.attr)
+            if q is None or q in seen or q not in defs or q not in mod.functions:
+                continue
+            seen.add(q)
+            fi = mod.functions[q]
+            ps = [p for p in fi.params() if p not in ('self', 'cls')]
+            if len(ps) == 1 and len(n.args) + len(n.keywords) == 1:
+                r = eval_pure(repo, fi, [b'{}'])
+                if r[0] == 'value' and isinstance(r[1], bool):
+                    cands.append(fi)
+            if depth < 2 and defs[q].name.startswith('_'):
+                todo.append((defs[q], depth + 1))
+    return cands[0] if len(cands) == 1 else None
+
+
 def _mime_tests(cs, fold=None):
     """String constants a path condition list pins a value to: ``x == 'c'`` / ``'c' == x`` / ``x in ('c',)`` true
     (``fold`` resolves named constants)."""
@@ -1066,31 +1362,40 @@ def run(rep):
     rep.decline('JSON validity and round trip, HTML table shapes, streaming (values of third-party serialisers)')
     rep.assume('request.args / accept_mimetypes behave as in werkzeug 1.0.1')
 
-    # ---- R17.a -----------------------------------------------------------
-    rep.rule('R17.a', 'every global Name load resolves (symtable), in the render modules and every clastic '
-                      'function reachable from the renderer entry points')
-    cg = CallGraph(repo)
-    roots = [simple.func('BasicRender.render_response'), simple.func('BasicRender._serialize_to_resp'),
-             simple.func('JSONRender.__call__'), simple.func('JSONPRender.__call__'),
-             simple.func('ClasticJSONEncoder.default'), tabular.func('TabularRender.context_to_response')]
-    reach = cg.reachable(roots, kinds=('call', 'self', 'super', 'new', 'role', 'prop', 'classattr', 'instance-call'))
-    extra = {}
-    for f in reach:
-        if f.mod not in (simple, tabular) and not f.mod.external:
-            extra.setdefault(f.mod, set()).add(f.qualname)
-    check_unbound(rep, 'R17.a', [simple, tabular])
-    for m, quals in extra.items():
-        check_unbound(rep, 'R17.a', [m], scope_filter=lambda mm, sc, quals=quals: sc in quals)
-    rep.floor('R17.a', 20)
+    def g_names():
+        # ---- R17.a -----------------------------------------------------------
+        rep.rule('R17.a', 'every global Name load resolves (symtable), in the render modules and every clastic '
+                          'function reachable from the renderer entry points')
+        cg = CallGraph(repo)
+        roots = [simple.func('BasicRender.render_response'), simple.func('BasicRender._serialize_to_resp'),
+                 simple.func('JSONRender.__call__'), simple.func('JSONPRender.__call__'),
+                 simple.func('ClasticJSONEncoder.default'), tabular.func('TabularRender.context_to_response')]
+        reach = cg.reachable(roots, kinds=('call', 'self', 'super', 'new', 'role', 'prop', 'classattr', 'instance-call'))
+        extra = {}
+        for f in reach:
+            if f.mod not in (simple, tabular) and not f.mod.external:
+                extra.setdefault(f.mod, set()).add(f.qualname)
+        check_unbound(rep, 'R17.a', [simple, tabular])
+        for m, quals in extra.items():
+            check_unbound(rep, 'R17.a', [m], scope_filter=lambda mm, sc, quals=quals: sc in quals)
+        rep.floor('R17.a', 20)
 
-    rr = simple.func('BasicRender.render_response')
-    rr_params = [p for p in rr.params() if p not in ('self', 'cls')]
-    if not rr_params:
-        raise AnalysisError('BasicRender.render_response takes no endpoint result')
-    ctx_param = 'context' if 'context' in rr_params else rr_params[0]
-    # the symbolic paths of render_response, once per abstract type of the endpoint result
     TYPES = ('str', 'bytes', 'sized', 'unsized')
-    paths = dict((T, sym_paths(rr, _decide_typed(simple, ctx_param, T), fold=lambda e: _fold_names(repo, rr, e))) for T in TYPES)
+    _rr = {}
+
+    def get_rr():
+        """(render_response, name of its endpoint-result parameter, {abstract result type: symbolic paths})."""
+        if not _rr:
+            rr = simple.func('BasicRender.render_response')
+            rr_params = [p for p in rr.params() if p not in ('self', 'cls')]
+            if not rr_params:
+                raise AnalysisError('BasicRender.render_response takes no endpoint result')
+            ctx_param = 'context' if 'context' in rr_params else rr_params[0]
+            paths = dict((T, sym_paths(rr, _decide_typed(simple, ctx_param, T), fold=lambda e: _fold_names(repo, rr, e),
+                                       resolve=follow_resolver(repo, rr, keep=('_guess_json', '_serialize_to_resp'))))
+                         for T in TYPES)
+            _rr['v'] = (rr, ctx_param, paths)
+        return _rr['v']
 
     def sniffs(st):
         """[(kind, searched / guessed value, original test node, polarity)] of the free sniffing tests of a path."""
@@ -1101,415 +1406,454 @@ def run(rep):
                 out.append((k, arg, orig, pol))
         return out
 
-    # ---- R17.b -----------------------------------------------------------
-    rep.rule('R17.b', 'no bytes/str/int type confusion in classification tests; _guess_json labels are feasible')
-    gj = simple.functions.get('BasicRender._guess_json') or simple.functions.get('_guess_json')
-    if gj is None:
-        raise AnalysisError('anchor vanished: function %s::BasicRender._guess_json' % SIMPLE)
-    repo.functions_touched.add(gj.key)
-    gj_params = [p for p in gj.params() if p not in ('self', 'cls')]
-    bnames = _bytes_typed_names(repo, gj)
-    if not bnames:
-        # fall back: the single positional parameter, if every call in render_response passes a bytes-typed value
-        args = [(T, a) for T in ('str', 'bytes') for st in paths[T] for k, a, o, p in sniffs(st) if k == 'gj']
-        if len(gj_params) == 1 and args and all(_abs_type(a, ctx_param, T) == 'bytes' for T, a in args):
-            bnames = {gj_params[0]}
-    if not bnames or len(gj_params) != 1:
-        raise AnalysisError('cannot establish that _guess_json receives bytes')
-    confusions = list(type_confusions(gj.node, bnames))
-    for n, why in confusions:
-        rep.fail('R17.b', fkey(gj, n), why, simple, n)
-    if not confusions:
-        rep.ok('R17.b', fkey(gj), 'no constant-false or TypeError-raising test on the bytes parameter %s' % sorted(bnames), simple, gj.node)
-    # label feasibility, decided by evaluating the (pure) function on representative bodies
-    probe = eval_pure(repo, gj, [b'{}'])
-    if probe[0] != 'unsupported':
-        def outcomes(vectors):
-            return [(v, eval_pure(repo, gj, [v])) for v in vectors]
-        unsup = [r for v, r in outcomes(_JSON_YES['object'] + _JSON_YES['array'] + _JSON_NO + [b'']) if r[0] == 'unsupported']
-        if unsup:
-            raise AnalysisError('_guess_json cannot be evaluated: %s' % unsup[0][1])
-        for kind in ('object', 'array'):
-            res = outcomes(_JSON_YES[kind])
-            bad = [(v, r) for v, r in res if not (r[0] == 'value' and r[1] is True)]
-            rep.check('R17.b', fkey(gj, 'accepts ' + kind), not bad,
-                      'every serialized JSON %s among %d representative bodies is recognised' % (kind, len(res)) if not bad else
-                      '_guess_json(%r) %s: a serialized JSON %s is not labelled application/json'
-                      % (bad[0][0], 'returns %r' % (bad[0][1][1],) if bad[0][1][0] == 'value' else 'raises ' + bad[0][1][1], kind),
+    def g_guess():
+        # ---- R17.b -----------------------------------------------------------
+        rep.rule('R17.b', 'no bytes/str/int type confusion in classification tests; _guess_json labels are feasible')
+        gj = simple.functions.get('BasicRender._guess_json') or simple.functions.get('_guess_json') or \
+            _guess_by_role(repo, simple, get_rr()[0])
+        if gj is None:
+            raise AnalysisError('anchor vanished: function %s::BasicRender._guess_json' % SIMPLE)
+        repo.functions_touched.add(gj.key)
+        gj_params = [p for p in gj.params() if p not in ('self', 'cls')]
+        bnames = _bytes_typed_names(repo, gj)
+        if not bnames:
+            # fall back: the single positional parameter, if every call in render_response passes a bytes-typed value
+            rr, ctx_param, paths = get_rr()
+            args = [(T, a) for T in ('str', 'bytes') for st in paths[T] for k, a, o, p in sniffs(st) if k == 'gj']
+            if len(gj_params) == 1 and args and all(_abs_type(a, ctx_param, T) == 'bytes' for T, a in args):
+                bnames = {gj_params[0]}
+        if not bnames or len(gj_params) != 1:
+            raise AnalysisError('cannot establish that _guess_json receives bytes')
+        confusions = list(type_confusions(gj.node, bnames))
+        for n, why in confusions:
+            rep.fail('R17.b', fkey(gj, n), why, simple, n)
+        if not confusions:
+            rep.ok('R17.b', fkey(gj), 'no constant-false or TypeError-raising test on the bytes parameter %s' % sorted(bnames), simple, gj.node)
+        # label feasibility, decided by evaluating the (pure) function on representative bodies
+        probe = eval_pure(repo, gj, [b'{}'])
+        if probe[0] != 'unsupported':
+            def outcomes(vectors):
+                return [(v, eval_pure(repo, gj, [v])) for v in vectors]
+            unsup = [r for v, r in outcomes(_JSON_YES['object'] + _JSON_YES['array'] + _JSON_NO + [b'']) if r[0] == 'unsupported']
+            if unsup:
+                raise AnalysisError('_guess_json cannot be evaluated: %s' % unsup[0][1])
+            for kind in ('object', 'array'):
+                res = outcomes(_JSON_YES[kind])
+                bad = [(v, r) for v, r in res if not (r[0] == 'value' and r[1] is True)]
+                rep.check('R17.b', fkey(gj, 'accepts ' + kind), not bad,
+                          'every serialized JSON %s among %d representative bodies is recognised' % (kind, len(res)) if not bad else
+                          '%s(%r) %s: a serialized JSON %s is not labelled application/json'
+                          % (gj.name, bad[0][0], 'returns %r' % (bad[0][1][1],) if bad[0][1][0] == 'value' else 'raises ' + bad[0][1][1], kind),
+                          simple, gj.node)
+            res = outcomes(_JSON_NO)
+            bad = [(v, r) for v, r in res if not (r[0] == 'value' and not r[1])]
+            rep.check('R17.b', fkey(gj, 'bracket pairs'), not bad,
+                      'only bodies delimited by a matching {..} / [..] pair are guessed to be JSON (%d other bodies rejected)' % len(res)
+                      if not bad else '%s(%r) %s: text that is no JSON container must stay text/html / text/plain'
+                      % (gj.name, bad[0][0], 'returns %r' % (bad[0][1][1],) if bad[0][1][0] == 'value' else 'raises ' + bad[0][1][1]),
                       simple, gj.node)
-        res = outcomes(_JSON_NO)
-        bad = [(v, r) for v, r in res if not (r[0] == 'value' and not r[1])]
-        rep.check('R17.b', fkey(gj, 'bracket pairs'), not bad,
-                  'only bodies delimited by a matching {..} / [..] pair are guessed to be JSON (%d other bodies rejected)' % len(res)
-                  if not bad else '_guess_json(%r) %s: text that is no JSON container must stay text/html / text/plain'
-                  % (bad[0][0], 'returns %r' % (bad[0][1][1],) if bad[0][1][0] == 'value' else 'raises ' + bad[0][1][1]),
-                  simple, gj.node)
-        r = eval_pure(repo, gj, [b''])
-        ok = r[0] == 'value' and not r[1]
-        rep.check('R17.b', fkey(gj, 'empty'), ok, 'empty input is not JSON and raises nothing' if ok else
-                  '_guess_json(b\'\') %s (indexing an empty value is not guarded)'
-                  % ('returns %r' % (r[1],) if r[0] == 'value' else 'raises ' + r[1]), simple, gj.node)
-    else:
-        _gj_structural(rep, simple, gj, bnames, probe[1])
-    # the caller side: the sniffing tests of render_response on text results
-    rr_conf, seen = [], set()
-    n_tests = 0
-    for T in ('str', 'bytes'):
-        for st in paths[T]:
-            for key, atom, orig, pol, decided in st.trace:
-                n_tests += 1
-                for x, why in type_confusions([ast.Expr(value=atom)], {ctx_param} if T == 'bytes' else set()):
-                    if id(orig) not in seen:
-                        seen.add(id(orig))
-                        rr_conf.append((orig, why))
-    if not n_tests:
-        raise AnalysisError('render_response: no classification tests found')
-    for x, why in rr_conf:
-        rep.fail('R17.b', fkey(rr, x), why, simple, x)
-    if not rr_conf:
-        rep.ok('R17.b', fkey(rr), 'sniffing tests on the bytes context are type-consistent', simple, rr.node)
+            r = eval_pure(repo, gj, [b''])
+            ok = r[0] == 'value' and not r[1]
+            rep.check('R17.b', fkey(gj, 'empty'), ok, 'empty input is not JSON and raises nothing' if ok else
+                      '%s(b\'\') %s (indexing an empty value is not guarded)'
+                      % (gj.name, 'returns %r' % (r[1],) if r[0] == 'value' else 'raises ' + r[1]), simple, gj.node)
+        else:
+            _gj_structural(rep, simple, gj, bnames, probe[1])
+    def g_render():
+        rr, ctx_param, paths = get_rr()
+        # the caller side: the sniffing tests of render_response on text results
+        rr_conf, seen = [], set()
+        n_tests = 0
+        for T in ('str', 'bytes'):
+            for st in paths[T]:
+                for key, atom, orig, pol, decided in st.trace:
+                    n_tests += 1
+                    for x, why in type_confusions([ast.Expr(value=atom)], {ctx_param} if T == 'bytes' else set()):
+                        if id(orig) not in seen:
+                            seen.add(id(orig))
+                            rr_conf.append((orig, why))
+        if not n_tests:
+            raise AnalysisError('render_response: no classification tests found')
+        for x, why in rr_conf:
+            rep.fail('R17.b', fkey(rr, x), why, simple, x)
+        if not rr_conf:
+            rep.ok('R17.b', fkey(rr), 'sniffing tests on the bytes context are type-consistent', simple, rr.node)
 
-    # ---- R17.c -----------------------------------------------------------
-    rep.rule('R17.c', 'each Response label is decided by its classification test (json guess, then html sniff, else plain) '
-                      'on the encoded text; unsized values are stringified; Sized values go to _serialize_to_resp')
+        # ---- R17.c -----------------------------------------------------------
+        rep.rule('R17.c', 'each Response label is decided by its classification test (json guess, then html sniff, else plain) '
+                          'on the encoded text; unsized values are stringified; Sized values go to _serialize_to_resp')
 
-    def label_of(st):
-        """(mimetype, body expr) of a path that returns Response(body, mimetype=<constant>), else (None, None)."""
-        if st.term[0] != 'return' or not _is_response(simple, st.term[1]):
-            return None, None
-        v = st.term[1]
-        mt = _fold_const(repo, rr, argn(v, 'mimetype', 3))
-        return (mt if isinstance(mt, str) else None), argn(v, 'response', 0)
-
-    def term_text(st):
-        return 'falls off the end (returns None)' if st.term[0] == 'fall' else \
-            ('raises %s' % short(st.term[1], 60) if st.term[0] == 'raise' else 'returns %s' % short(st.term[1], 80))
-
-    def path_text(st):
-        return '; '.join('%s%s' % ('' if c[3] else 'not ', short(c[2], 50)) for c in st.trace) or 'unconditionally'
-
-    for T in TYPES:
-        for st in paths[T]:
+        def label_of(st):
+            """(mimetype, body expr) of a path that returns Response(body, mimetype=<constant>), else (None, None)."""
+            if st.term[0] != 'return' or not _is_response(simple, st.term[1]):
+                return None, None
             v = st.term[1]
-            if st.term[0] == 'return' and _is_response(simple, v) and \
-                    argn(v, 'mimetype', 3) is not None and label_of(st)[0] is None:
-                raise AnalysisError('render_response: the mimetype %s of a returned Response is not a constant the analysis '
-                                    'can follow' % short(argn(v, 'mimetype', 3), 60))
-    expected = {(True, True): 'application/json', (True, False): 'application/json', (False, True): 'text/html',
-                (False, False): 'text/plain'}
-    for T in ('str', 'bytes'):
-        for (g, h), want in sorted(expected.items(), reverse=True):
-            cons = [st for st in paths[T]
-                    if all(not (k == 'gj' and p is not g) and not (k == 'html' and p is not h) for k, a, o, p in sniffs(st))]
-            bad = [st for st in cons if label_of(st)[0] != want]
-            # the body must be the endpoint's text (as given or encoded)
-            badbody = [st for st in cons if st not in bad and not (
-                _abs_type(label_of(st)[1], ctx_param, T) in ('str', 'bytes') and
-                ctx_param in [n.id for n in ast.walk(label_of(st)[1]) if isinstance(n, ast.Name)])]
-            ok = bool(cons) and not bad and not badbody
-            what = '%s result, json guess %s, html sniff %s' % (T, 'true' if g else 'false', 'true' if h else 'false')
-            if ok:
-                detail = '%s is labelled %s on every path (%d)' % (what, want, len(cons))
-            elif not cons:
-                detail = 'no path of render_response serves a %s' % what
-            elif bad:
-                detail = '%s must be labelled %s, but the path [%s] %s' % (what, want, path_text(bad[0]), term_text(bad[0]))
-            else:
-                detail = '%s: the response body %s is not the endpoint result' % (what, short(label_of(badbody[0])[1], 60))
-            where = (bad or badbody or cons or [None])[0]
-            rep.check('R17.c', fkey(rr, 'label %s: %s' % (want, what)), ok, detail, simple,
-                      where.term[2] if where is not None and where.term[2] is not None else rr.node)
-    # str is encoded before the bytes classification: every sniff of a text result looks at bytes
-    for T in ('str', 'bytes'):
-        sn = [(k, a, o, st) for st in paths[T] for k, a, o, p in sniffs(st)]
-        wrong = [(k, a, o, st) for k, a, o, st in sn if _abs_type(a, ctx_param, T) != 'bytes']
-        kinds = set(k for k, a, o, st in sn)
-        ok = kinds == {'gj', 'html'} and not wrong
-        rep.check('R17.c', fkey(rr, 'encode-before-classify' if T == 'str' else 'classify bytes'), ok,
-                  ('str contexts are encoded and then flow into the bytes classification' if T == 'str' else
-                   'bytes contexts are classified as they are') if ok else
-                  ('text is not encoded before the bytes classification (str results would skip the sniffing): %s'
-                   % (short(wrong[0][2], 60) + ' looks at ' + short(wrong[0][1], 40) if wrong else 'sniffing tests missing'))
-                  if T == 'str' else 'the classification of bytes results does not run both sniffing tests on the bytes value',
-                  simple, wrong[0][2] if wrong else rr.node)
-    # not Sized -> stringified text/plain
-    good_all, first_bad = bool(paths['unsized']), None
-    for st in paths['unsized']:
-        mt, a0 = label_of(st)
-        good = mt == 'text/plain' and a0 is not None and (
-            (isinstance(a0, ast.Call) and isinstance(a0.func, ast.Name) and a0.args and norm(a0.args[0]) == ctx_param) or
-            (isinstance(a0, (ast.JoinedStr, ast.BinOp)) and ctx_param in [n.id for n in ast.walk(a0) if isinstance(n, ast.Name)]) or
-            (isinstance(a0, ast.Call) and isinstance(a0.func, ast.Attribute) and a0.func.attr == 'format'
-             and ctx_param in [norm(x) for x in a0.args]))
-        if not good and first_bad is None:
-            good_all, first_bad = False, st
-    rep.check('R17.c', fkey(rr, 'stringify'), good_all,
-              'non-Sized values are rendered as text/plain text on every path (%d)' % len(paths['unsized']) if good_all else
-              'a non-Sized value is not stringified into a text/plain Response: the path [%s] %s'
-              % (path_text(first_bad), term_text(first_bad)) if first_bad is not None else 'no path serves non-Sized values',
-              simple, first_bad.term[2] if first_bad is not None and first_bad.term[2] is not None else rr.node)
-    # everything else -> _serialize_to_resp
-    first_bad = None
-    for st in paths['sized']:
-        v = st.term[1] if st.term[0] == 'return' else None
-        good = isinstance(v, ast.Call) and call_tail(v) == '_serialize_to_resp' and \
-            norm(argn(v, 'context', 0)) == ctx_param
-        if not good and first_bad is None:
-            first_bad = st
-    ok = bool(paths['sized']) and first_bad is None
-    rep.check('R17.c', fkey(rr, 'serialize'), ok,
-              'Sized non-text contexts are handed to _serialize_to_resp on every path (%d)' % len(paths['sized']) if ok else
-              '_serialize_to_resp is not the continuation for Sized non-text contexts: the path [%s] %s'
-              % (path_text(first_bad), term_text(first_bad)) if first_bad is not None else 'no path serves Sized values',
-              simple, first_bad.term[2] if first_bad is not None and first_bad.term[2] is not None else rr.node)
-    # all paths of render_response end in a return of a call (Response / renderer), none applies a text method to the wrong type
-    bad = []
-    for T in TYPES:
-        for st in paths[T]:
-            if st.term[0] != 'return' or not isinstance(st.term[1], ast.Call):
-                bad.append((T, st, term_text(st)))
-                continue
-            errs = [e for x in [st.term[1]] + [c[1] for c in st.trace] + list(st.env.values()) for e in _type_errors(x, ctx_param, T)]
-            if errs:
-                bad.append((T, st, 'evaluates %s (AttributeError)' % short(errs[0], 60)))
-    rep.check('R17.c', fkey(rr, 'returns'), not bad,
-              'every path returns a constructed response' if not bad else
-              'for a %s result the path [%s] %s' % (bad[0][0], path_text(bad[0][1]), bad[0][2]), simple,
-              bad[0][1].term[2] if bad and bad[0][1].term[2] is not None else rr.node)
-    # _serialize_to_resp branches
-    sr = simple.func('BasicRender._serialize_to_resp')
-    want_map = {'application/json': 'json_render', 'text/html': 'tabular_render'}
-    branch_mimes = set()
-    n_branches = 0
+            mt = _fold_const(repo, rr, argn(v, 'mimetype', 3))
+            return (mt if isinstance(mt, str) else None), argn(v, 'response', 0)
 
-    def renderer_of(call):
-        t = call_tail(call)
-        if isinstance(call.func, ast.Name):
-            vals = [v for (_s, v, i) in assigned_value(sr.node, call.func.id)]
-            if len(vals) == 1 and isinstance(vals[0], ast.Attribute):
-                t = vals[0].attr
-        return t
-    for r in returns_of(sr):
-        v = r.value
-        if isinstance(v, ast.Call) and renderer_of(v) in ('json_render', 'tabular_render'):
-            n_branches += 1
-            cs = conds(sr, r)
-            mimes = _mime_tests(cs, lambda a: _fold_const(repo, sr, a))
-            ok = len(set(mimes)) == 1 and want_map.get(mimes[0]) == renderer_of(v)
-            if ok:
-                branch_mimes.add(mimes[0])
-            rep.check('R17.c', fkey(sr, 'branch ' + renderer_of(v)), ok,
-                      '%s serves %s' % (renderer_of(v), mimes) if ok else
-                      '%s is returned under mime test %r (expected %s)' % (renderer_of(v), mimes,
-                                                                              [k for k, x in want_map.items() if x == renderer_of(v)]),
-                      simple, r)
-    if not n_branches:
-        raise AnalysisError('_serialize_to_resp: the returns that call json_render / tabular_render were not found')
-    rep.floor('R17.c', 9)
+        def term_text(st):
+            return 'falls off the end (returns None)' if st.term[0] == 'fall' else \
+                ('raises %s' % short(st.term[1], 60) if st.term[0] == 'raise' else 'returns %s' % short(st.term[1], 80))
 
-    # ---- R17.d -----------------------------------------------------------
-    rep.rule('R17.d', 'TypeError from the encoder only when dev_mode is false; shipped renderers are dev-mode')
-    de = simple.func('ClasticJSONEncoder.default')
-    de_params = [p for p in de.params() if p not in ('self', 'cls')]
-    obj_param = de_params[0] if de_params else 'obj'
-    is_dev = lambda t: norm(t) == 'self.dev_mode'
-    for r in raises_of(de):
-        if raise_type(r) == 'TypeError':
-            cs = conds(de, r)
-            ok = has_cond(cs, is_dev, False)
-            rep.check('R17.d', fkey(de, 'raise TypeError'), ok,
-                      'raise is reachable only when self.dev_mode is false' if ok else
-                      'TypeError can be raised although dev_mode is true (conditions: %s)' % '; '.join(cond_texts(cs)),
-                      simple, r)
-    reprs = [r for r in returns_of(de) if r.value is not None and
-             (_is_repr_of(r.value, obj_param) or (isinstance(r.value, ast.Call) and call_name(r.value) == 'repr'))
-             and has_cond(conds(de, r), is_dev, True)]
-    rep.check('R17.d', fkey(de, 'return repr'), bool(reprs),
-              'dev mode degrades unknown objects to repr(obj)' if reprs else
-              'no "return repr(obj)" under self.dev_mode', simple, de.node)
-    # default() never falls off the end
-    cfg_de = cfg_of(de)
-    falls = cfg_de.exit in cfg_de.reach([cfg_de.entry], avoid=set(cfg_de.nodes_of_all(returns_of(de))), normal_only=True)
-    rep.check('R17.d', fkey(de, 'total'), not falls, 'default() returns or raises on every path' if not falls else
-              'default() can fall off the end and return None', simple, de.node)
-    # conversions of the object that can fail on its *content* (decoding, parsing) must be attempts, like the
-    # dict()/list() attempts next to them: an unguarded one turns "degrade to repr" into an exception
-    from .common import protected_by
-    converters = ('dict', 'list', 'int', 'float', 'tuple', 'set', 'frozenset', 'sorted')
-    n_att = 0
-    for c in walk_body(de.node):
-        if not isinstance(c, ast.Call):
-            continue
-        fname = c.func.id if isinstance(c.func, ast.Name) else None
-        if fname is not None and fname not in converters:
-            # a local that ranges over converter callables:  for conv in (dict, list): ... conv(obj)
-            vals = assigned_value(de.node, fname)
-            its = [v for (_s, v, i) in vals if i == 'iter' and isinstance(v, (ast.Tuple, ast.List))]
-            if len(vals) == 1 and its and all(isinstance(e, ast.Name) and e.id in converters for e in its[0].elts):
-                fname = its[0].elts[0].id
-            else:
-                fname = None
-        if call_tail(c) in ('decode', 'loads', 'fromhex', 'unhexlify', 'b64decode') or fname in converters:
-            n_att += 1
-            h = protected_by(de, c, 'ValueError')
-            ok = (h is not None and not any(isinstance(x, ast.Raise) for x in ast.walk(h))) or _suppressed(de, c)
-            rep.check('R17.d', fkey(de, c), ok, 'conversion attempt %s is guarded (falls through to the next strategy)' % short(c, 40) if ok else
-                      'conversion %s in ClasticJSONEncoder.default is unguarded: a value it cannot convert (e.g. non-UTF-8 bytes) raises '
-                      'instead of degrading' % short(c, 60), simple, c)
-    if n_att < 2:
-        raise AnalysisError('ClasticJSONEncoder.default: conversion attempts not found')
+        def path_text(st):
+            return '; '.join('%s%s' % ('' if c[3] else 'not ', short(c[2], 50)) for c in st.trace) or 'unconditionally'
 
-    # construction sites
-    def dev_arg(fi_, call):
-        return _call_arg(repo, fi_.mod if fi_ is not None else simple, call, 'dev_mode', fi_)
+        for T in TYPES:
+            for st in paths[T]:
+                v = st.term[1]
+                if st.term[0] == 'return' and _is_response(simple, v) and \
+                        argn(v, 'mimetype', 3) is not None and label_of(st)[0] is None:
+                    raise AnalysisError('render_response: the mimetype %s of a returned Response is not a constant the analysis '
+                                        'can follow' % short(argn(v, 'mimetype', 3), 60))
+        free_text = [(T, st, c) for T in ('str', 'bytes') for st in paths[T] for c in st.free()]
+        symbolic = bool(free_text) and all(_sniff_kind(c[1])[0] is not None for T, st, c in free_text)
+        if not symbolic:
+            # some test of the text branch is not one of the two sniffs as such (a guess helper dissolved into its
+            # caller, a combined test): decide the labels by evaluating the path conditions on representative bodies
+            _text_by_evaluation(rep, repo, simple, rr, ctx_param, paths, label_of, path_text, term_text)
+        if symbolic:
+            expected = {(True, True): 'application/json', (True, False): 'application/json', (False, True): 'text/html',
+                        (False, False): 'text/plain'}
+            for T in ('str', 'bytes'):
+                for (g, h), want in sorted(expected.items(), reverse=True):
+                    cons = [st for st in paths[T]
+                            if all(not (k == 'gj' and p is not g) and not (k == 'html' and p is not h) for k, a, o, p in sniffs(st))]
+                    bad = [st for st in cons if label_of(st)[0] != want]
+                    # the body must be the endpoint's text (as given or encoded)
+                    badbody = [st for st in cons if st not in bad and not (
+                        _abs_type(label_of(st)[1], ctx_param, T) in ('str', 'bytes') and
+                        ctx_param in [n.id for n in ast.walk(label_of(st)[1]) if isinstance(n, ast.Name)])]
+                    ok = bool(cons) and not bad and not badbody
+                    what = '%s result, json guess %s, html sniff %s' % (T, 'true' if g else 'false', 'true' if h else 'false')
+                    if ok:
+                        detail = '%s is labelled %s on every path (%d)' % (what, want, len(cons))
+                    elif not cons:
+                        detail = 'no path of render_response serves a %s' % what
+                    elif bad:
+                        detail = '%s must be labelled %s, but the path [%s] %s' % (what, want, path_text(bad[0]), term_text(bad[0]))
+                    else:
+                        detail = '%s: the response body %s is not the endpoint result' % (what, short(label_of(badbody[0])[1], 60))
+                    where = (bad or badbody or cons or [None])[0]
+                    rep.check('R17.c', fkey(rr, 'label %s: %s' % (want, what)), ok, detail, simple,
+                              where.term[2] if where is not None and where.term[2] is not None else rr.node)
+            # str is encoded before the bytes classification: every sniff of a text result looks at bytes
+            for T in ('str', 'bytes'):
+                sn = [(k, a, o, st) for st in paths[T] for k, a, o, p in sniffs(st)]
+                wrong = [(k, a, o, st) for k, a, o, st in sn if _abs_type(a, ctx_param, T) != 'bytes']
+                kinds = set(k for k, a, o, st in sn)
+                ok = kinds == {'gj', 'html'} and not wrong
+                rep.check('R17.c', fkey(rr, 'encode-before-classify' if T == 'str' else 'classify bytes'), ok,
+                          ('str contexts are encoded and then flow into the bytes classification' if T == 'str' else
+                           'bytes contexts are classified as they are') if ok else
+                          ('text is not encoded before the bytes classification (str results would skip the sniffing): %s'
+                           % (short(wrong[0][2], 60) + ' looks at ' + short(wrong[0][1], 40) if wrong else 'sniffing tests missing'))
+                          if T == 'str' else 'the classification of bytes results does not run both sniffing tests on the bytes value',
+                          simple, wrong[0][2] if wrong else rr.node)
+        # not Sized -> stringified text/plain
+        good_all, first_bad = bool(paths['unsized']), None
+        for st in paths['unsized']:
+            mt, a0 = label_of(st)
+            good = mt == 'text/plain' and a0 is not None and (
+                (isinstance(a0, ast.Call) and isinstance(a0.func, ast.Name) and a0.args and norm(a0.args[0]) == ctx_param) or
+                (isinstance(a0, (ast.JoinedStr, ast.BinOp)) and ctx_param in [n.id for n in ast.walk(a0) if isinstance(n, ast.Name)]) or
+                (isinstance(a0, ast.Call) and isinstance(a0.func, ast.Attribute) and a0.func.attr == 'format'
+                 and ctx_param in [norm(x) for x in a0.args]))
+            if not good and first_bad is None:
+                good_all, first_bad = False, st
+        rep.check('R17.c', fkey(rr, 'stringify'), good_all,
+                  'non-Sized values are rendered as text/plain text on every path (%d)' % len(paths['unsized']) if good_all else
+                  'a non-Sized value is not stringified into a text/plain Response: the path [%s] %s'
+                  % (path_text(first_bad), term_text(first_bad)) if first_bad is not None else 'no path serves non-Sized values',
+                  simple, first_bad.term[2] if first_bad is not None and first_bad.term[2] is not None else rr.node)
+        # everything else -> _serialize_to_resp
+        first_bad = None
+        for st in paths['sized']:
+            v = st.term[1] if st.term[0] == 'return' else None
+            good = isinstance(v, ast.Call) and call_tail(v) == '_serialize_to_resp' and \
+                norm(argn(v, 'context', 0)) == ctx_param
+            if not good and first_bad is None:
+                first_bad = st
+        ok = bool(paths['sized']) and first_bad is None
+        rep.check('R17.c', fkey(rr, 'serialize'), ok,
+                  'Sized non-text contexts are handed to _serialize_to_resp on every path (%d)' % len(paths['sized']) if ok else
+                  '_serialize_to_resp is not the continuation for Sized non-text contexts: the path [%s] %s'
+                  % (path_text(first_bad), term_text(first_bad)) if first_bad is not None else 'no path serves Sized values',
+                  simple, first_bad.term[2] if first_bad is not None and first_bad.term[2] is not None else rr.node)
+        # all paths of render_response end in a return of a call (Response / renderer), none applies a text method to the wrong type
+        bad = []
+        for T in TYPES:
+            for st in paths[T]:
+                if st.term[0] != 'return' or not isinstance(st.term[1], ast.Call):
+                    bad.append((T, st, term_text(st)))
+                    continue
+                errs = [e for x in [st.term[1]] + [c[1] for c in st.trace] + list(st.env.values()) for e in _type_errors(x, ctx_param, T)]
+                if errs:
+                    bad.append((T, st, 'evaluates %s (AttributeError)' % short(errs[0], 60)))
+        rep.check('R17.c', fkey(rr, 'returns'), not bad,
+                  'every path returns a constructed response' if not bad else
+                  'for a %s result the path [%s] %s' % (bad[0][0], path_text(bad[0][1]), bad[0][2]), simple,
+                  bad[0][1].term[2] if bad and bad[0][1].term[2] is not None else rr.node)
+    def g_serialize():
+        # _serialize_to_resp branches
+        sr = simple.func('BasicRender._serialize_to_resp')
+        want_map = {'application/json': 'json_render', 'text/html': 'tabular_render'}
+        branch_mimes = set()
+        n_branches = 0
 
-    def popped_default(fi_, expr):
-        """(True, default) when expr reads the 'dev_mode' option: kwargs.pop/get('dev_mode', default) or a parameter."""
-        if isinstance(expr, ast.Call) and call_tail(expr) in ('pop', 'get') and expr.args and \
-                isinstance(expr.args[0], ast.Constant) and expr.args[0].value == 'dev_mode':
-            return True, (_fold_const(repo, fi_, expr.args[1]) if len(expr.args) > 1 else None)
-        if isinstance(expr, ast.Name):
-            a = fi_.node.args
-            ps = a.posonlyargs + a.args
-            ds = dict(zip([p.arg for p in ps][len(ps) - len(a.defaults):], a.defaults))
-            ds.update((p.arg, d) for p, d in zip(a.kwonlyargs, a.kw_defaults) if d is not None)
-            if expr.id == 'dev_mode' and expr.id in fi_.params() and not assigned_value(fi_.node, expr.id):
-                return True, (_fold_const(repo, None, ds[expr.id]) if expr.id in ds else None)
-            vals = assigned_value(fi_.node, expr.id)
-            if len(vals) == 1 and vals[0][2] is None and isinstance(vals[0][1], ast.expr) and not isinstance(vals[0][1], ast.Name):
-                return popped_default(fi_, vals[0][1])
-        return False, None
+        def renderer_of(call):
+            t = call_tail(call)
+            if isinstance(call.func, ast.Name):
+                vals = [v for (_s, v, i) in assigned_value(sr.node, call.func.id)]
+                if len(vals) == 1 and isinstance(vals[0], ast.Attribute):
+                    t = vals[0].attr
+            return t
+        for r in returns_of(sr):
+            v = r.value
+            if isinstance(v, ast.Call) and renderer_of(v) in ('json_render', 'tabular_render'):
+                n_branches += 1
+                cs = conds(sr, r)
+                mimes = _mime_tests(cs, lambda a: _fold_const(repo, sr, a))
+                ok = len(set(mimes)) == 1 and want_map.get(mimes[0]) == renderer_of(v)
+                if ok:
+                    branch_mimes.add(mimes[0])
+                rep.check('R17.c', fkey(sr, 'branch ' + renderer_of(v)), ok,
+                          '%s serves %s' % (renderer_of(v), mimes) if ok else
+                          '%s is returned under mime test %r (expected %s)' % (renderer_of(v), mimes,
+                                                                                  [k for k, x in want_map.items() if x == renderer_of(v)]),
+                          simple, r)
+        if not n_branches:
+            raise AnalysisError('_serialize_to_resp: the returns that call json_render / tabular_render were not found')
+        # ---- R17.e -----------------------------------------------------------
+        rep.rule('R17.e', '_format_mime_map, _default_mime and the branches of _serialize_to_resp agree')
+        br = simple.cls('BasicRender')
 
-    def is_own_dev(fi_, expr):
-        """expr is the dev_mode of the instance under construction / in use: self.dev_mode, the dev_mode parameter, or a
-        local that is stored into self.dev_mode / reads the dev_mode option."""
-        if expr is None:
-            return False
-        if norm(expr) == 'self.dev_mode':
-            return True
-        if isinstance(expr, ast.Name):
-            if popped_default(fi_, expr)[0]:
-                return True
-            return any(isinstance(s, ast.Assign) and norm(s.targets[0]) == 'self.dev_mode' and norm(s.value) == expr.id
-                       for s in stmts_of(fi_.node))
-        return False
-
-    br_init = simple.func('BasicRender.__init__')
-    sets = [s for s in stmts_of(br_init.node) if isinstance(s, ast.Assign) and norm(s.targets[0]) == 'self.dev_mode']
-    found = [popped_default(br_init, s.value) for s in sets]
-    if not sets:
-        raise AnalysisError('BasicRender.__init__: the assignment of self.dev_mode was not found')
-    ok = len(sets) == 1 and found[0][0] and found[0][1] is True
-    rep.check('R17.d', fkey(br_init, "kwargs.pop('dev_mode')"), ok, 'BasicRender defaults to dev_mode=True' if ok else
-              'BasicRender no longer defaults dev_mode to True', simple, sets[0])
-    jr_in_br = [c for c in walk_body(br_init.node) if isinstance(c, ast.Call) and call_tail(c) == 'JSONRender']
-    ok = bool(jr_in_br) and all(is_own_dev(br_init, dev_arg(br_init, c)) for c in jr_in_br)
-    rep.check('R17.d', fkey(br_init, 'JSONRender(dev_mode=self.dev_mode)'), ok,
-              'BasicRender builds its JSONRender with its own dev_mode' if ok else 'BasicRender does not forward dev_mode to JSONRender',
-              simple, br_init.node)
-    jr_init = simple.func('JSONRender.__init__')
-    enc_calls = [c for c in walk_body(jr_init.node) if isinstance(c, ast.Call) and call_tail(c) == 'ClasticJSONEncoder']
-    ok = bool(enc_calls) and all(is_own_dev(jr_init, dev_arg(jr_init, c)) for c in enc_calls)
-    rep.check('R17.d', fkey(jr_init, 'ClasticJSONEncoder(dev_mode=...)'), ok,
-              'JSONRender forwards dev_mode to its encoder' if ok else 'JSONRender does not forward dev_mode to the encoder',
-              simple, jr_init.node)
-    # every encoder / JSON renderer constructed by a renderer class forwards the renderer's dev_mode
-    # (a subclass that rebuilds self.json_encoder without it silently leaves dev mode)
-    for q, fi_ in sorted(simple.functions.items()):
-        if fi_.cls is None or q in ('JSONRender.__init__', 'BasicRender.__init__'):
-            continue
-        for c in walk_body(fi_.node):
-            if isinstance(c, ast.Call) and call_tail(c) in ('ClasticJSONEncoder', 'JSONRender', 'JSONPRender'):
-                dv = dev_arg(fi_, c)
-                ok = dv is not None and (is_own_dev(fi_, dv) or _fold_const(repo, fi_, dv) is True)
-                rep.check('R17.d', fkey(fi_, c), ok, 'encoder/renderer constructed with the instance\'s dev_mode' if ok else
-                          '%s constructs %s without forwarding dev_mode: unknown objects raise TypeError instead of degrading to repr'
-                          % (q, call_tail(c)), simple, c)
-    # and nobody re-binds the encoder of a renderer after construction
-    for q, fi_ in sorted(simple.functions.items()):
-        for s in stmts_of(fi_.node):
-            if isinstance(s, ast.Assign) and norm(s.targets[0]) == 'self.json_encoder' and q != 'JSONRender.__init__':
-                v = s.value
-                ok = isinstance(v, ast.Call) and is_own_dev(fi_, dev_arg(fi_, v))
-                rep.check('R17.d', fkey(fi_, 'self.json_encoder'), ok, 're-bound encoder keeps dev_mode' if ok else
-                          '%s re-binds self.json_encoder without dev_mode' % q, simple, s)
-    enc_init = simple.func('ClasticJSONEncoder.__init__')
-    sets = [s for s in stmts_of(enc_init.node) if isinstance(s, ast.Assign) and norm(s.targets[0]) == 'self.dev_mode']
-    ok = len(sets) == 1 and popped_default(enc_init, sets[0].value)[0]
-    rep.check('R17.d', fkey(enc_init, 'self.dev_mode'), ok, 'encoder takes dev_mode from its keyword' if ok else
-              'encoder no longer stores the dev_mode keyword', simple, enc_init.node)
-    for name, want_dev in (('render_basic', None), ('render_json_dev', True)):
-        vals = simple.assigns.get(name, [])
-        ok = len(vals) == 1 and isinstance(vals[0], ast.Call)
-        if ok:
-            dv = _call_arg(repo, simple, vals[0], 'dev_mode')
-            if want_dev is True:
-                ok = dv is not None and repo.try_fold(dv, simple) is True
-            else:
-                ok = call_name(vals[0]) == 'BasicRender' and (dv is None or repo.try_fold(dv, simple) is True)
-        rep.check('R17.d', '%s::%s' % (SIMPLE, name), ok, '%s is constructed in dev mode' % name if ok else
-                  '%s is not constructed in dev mode' % name, simple, vals[0] if vals else None)
-    tj = errors.func('HTTPException.to_json')
-    encs = [(tj, c) for c in walk_body(tj.node) if isinstance(c, ast.Call) and call_tail(c) == 'ClasticJSONEncoder']
-    # an encoder built once at module / class level and used by to_json
-    for n in walk_body(tj.node):
-        v = None
-        if isinstance(n, ast.Name) and isinstance(n.ctx, ast.Load) and len(errors.assigns.get(n.id, [])) == 1:
-            v = errors.assigns[n.id][0]
-        elif isinstance(n, ast.Attribute) and isinstance(n.value, ast.Name) and n.value.id in ('self', 'cls') and tj.cls is not None:
-            v = repo.class_attr(tj.cls, n.attr)[1]
-        if isinstance(v, ast.Call) and call_tail(v) == 'ClasticJSONEncoder':
-            encs.append((None, v))
-    if not encs:
-        raise AnalysisError('HTTPException.to_json: the ClasticJSONEncoder it encodes with was not found')
-    ok = all(_fold_const(repo, f_, _call_arg(repo, errors, c, 'dev_mode', f_)) is True if f_ is not None else
-             repo.try_fold(_call_arg(repo, errors, c, 'dev_mode') or ast.Constant(value=None), errors) is True for f_, c in encs)
-    rep.check('R17.d', fkey(tj, 'ClasticJSONEncoder'), ok, 'error JSON is encoded in dev mode (never raises on odd details)' if ok else
-              'HTTPException.to_json does not use a dev-mode encoder', errors, tj.node)
-
-    # ---- R17.e -----------------------------------------------------------
-    rep.rule('R17.e', '_format_mime_map, _default_mime and the branches of _serialize_to_resp agree')
-    br = simple.cls('BasicRender')
-
-    def fold_table(expr):
+        def fold_table(expr):
+            try:
+                return repo.fold(expr, simple)
+            except Exception:
+                if isinstance(expr, ast.Call) and isinstance(expr.func, ast.Name) and expr.func.id == 'dict' and \
+                        all(k.arg is not None for k in expr.keywords):
+                    d = dict(repo.fold(expr.args[0], simple)) if expr.args else {}
+                    d.update((k.arg, repo.fold(k.value, simple)) for k in expr.keywords)
+                    return d
+                raise
         try:
-            return repo.fold(expr, simple)
-        except Exception:
-            if isinstance(expr, ast.Call) and isinstance(expr.func, ast.Name) and expr.func.id == 'dict' and \
-                    all(k.arg is not None for k in expr.keywords):
-                d = dict(repo.fold(expr.args[0], simple)) if expr.args else {}
-                d.update((k.arg, repo.fold(k.value, simple)) for k in expr.keywords)
-                return d
-            raise
-    try:
-        fmm = fold_table(repo.class_attr(br, '_format_mime_map')[1])
-        dm = repo.fold(repo.class_attr(br, '_default_mime')[1], simple)
-        if not isinstance(fmm, dict) or not isinstance(dm, str):
-            raise ValueError('not a table')
-    except Exception as e:
-        raise AnalysisError('cannot fold BasicRender format tables: %s' % e)
-    for fmt, mime in sorted(fmm.items()):
-        rep.check('R17.e', '%s::BasicRender._format_mime_map[%s]' % (SIMPLE, fmt), mime in branch_mimes,
-                  'format %r -> %r has a serving branch' % (fmt, mime) if mime in branch_mimes else
-                  'format %r maps to %r which no branch of _serialize_to_resp serves' % (fmt, mime), simple, sr.node)
-    rep.check('R17.e', '%s::BasicRender._default_mime' % SIMPLE, dm in fmm.values() and dm in branch_mimes,
-              'default mime %r is a supported, served format' % dm if dm in fmm.values() and dm in branch_mimes else
-              'default mime %r is not among the served formats %r' % (dm, sorted(branch_mimes)), simple, sr.node)
-    # unsupported explicit format is rejected with ValueError (documented escape hatch), never mis-served
-    rz = [r for r in raises_of(sr) if raise_type(r) == 'ValueError']
-    rep.check('R17.e', fkey(sr, 'unsupported format'), bool(rz), 'unsupported ?format= is rejected explicitly' if rz else
-              'unsupported ?format= values are no longer rejected', simple, sr.node)
-    rep.floor('R17.e', 3)
-    # JSON renderer labels
-    for q, want in (('JSONRender.__call__', 'application/json'), ('JSONPRender.__call__', 'application/javascript')):
-        f = simple.func(q)
-        calls = [c for c in walk_body(f.node) if _is_response(simple, c)]
-        if not calls:
-            raise AnalysisError('%s: the Response it constructs was not found' % q)
-        mts = [_fold_const(repo, f, argn(c, 'mimetype', 3)) for c in calls]
-        ok = all(m == want for m in mts)
-        rep.check('R17.e', fkey(f, 'mimetype'), ok, '%s labels its body %s' % (q, want) if ok else
-                  '%s does not label its body %s (found %r)' % (q, want, mts), simple, f.node)
+            fmm = fold_table(repo.class_attr(br, '_format_mime_map')[1])
+            dm = repo.fold(repo.class_attr(br, '_default_mime')[1], simple)
+            if not isinstance(fmm, dict) or not isinstance(dm, str):
+                raise ValueError('not a table')
+        except Exception as e:
+            raise AnalysisError('cannot fold BasicRender format tables: %s' % e)
+        for fmt, mime in sorted(fmm.items()):
+            rep.check('R17.e', '%s::BasicRender._format_mime_map[%s]' % (SIMPLE, fmt), mime in branch_mimes,
+                      'format %r -> %r has a serving branch' % (fmt, mime) if mime in branch_mimes else
+                      'format %r maps to %r which no branch of _serialize_to_resp serves' % (fmt, mime), simple, sr.node)
+        rep.check('R17.e', '%s::BasicRender._default_mime' % SIMPLE, dm in fmm.values() and dm in branch_mimes,
+                  'default mime %r is a supported, served format' % dm if dm in fmm.values() and dm in branch_mimes else
+                  'default mime %r is not among the served formats %r' % (dm, sorted(branch_mimes)), simple, sr.node)
+        # unsupported explicit format is rejected with ValueError (documented escape hatch), never mis-served
+        rz = [r for r in raises_of(sr) if raise_type(r) == 'ValueError']
+        rep.check('R17.e', fkey(sr, 'unsupported format'), bool(rz), 'unsupported ?format= is rejected explicitly' if rz else
+                  'unsupported ?format= values are no longer rejected', simple, sr.node)
+        rep.floor('R17.e', 3)
+    def g_encoder():
+        # ---- R17.d -----------------------------------------------------------
+        rep.rule('R17.d', 'TypeError from the encoder only when dev_mode is false; shipped renderers are dev-mode')
+        de = simple.func('ClasticJSONEncoder.default')
+        de_params = [p for p in de.params() if p not in ('self', 'cls')]
+        obj_param = de_params[0] if de_params else 'obj'
+        is_dev = lambda t: norm(t) == 'self.dev_mode'
+        for r in raises_of(de):
+            if raise_type(r) == 'TypeError':
+                cs = conds(de, r)
+                ok = has_cond(cs, is_dev, False)
+                rep.check('R17.d', fkey(de, 'raise TypeError'), ok,
+                          'raise is reachable only when self.dev_mode is false' if ok else
+                          'TypeError can be raised although dev_mode is true (conditions: %s)' % '; '.join(cond_texts(cs)),
+                          simple, r)
+        reprs = [r for r in returns_of(de) if r.value is not None and
+                 (_is_repr_of(r.value, obj_param) or (isinstance(r.value, ast.Call) and call_name(r.value) == 'repr'))
+                 and has_cond(conds(de, r), is_dev, True)]
+        rep.check('R17.d', fkey(de, 'return repr'), bool(reprs),
+                  'dev mode degrades unknown objects to repr(obj)' if reprs else
+                  'no "return repr(obj)" under self.dev_mode', simple, de.node)
+        # default() never falls off the end
+        cfg_de = cfg_of(de)
+        falls = cfg_de.exit in cfg_de.reach([cfg_de.entry], avoid=set(cfg_de.nodes_of_all(returns_of(de))), normal_only=True)
+        rep.check('R17.d', fkey(de, 'total'), not falls, 'default() returns or raises on every path' if not falls else
+                  'default() can fall off the end and return None', simple, de.node)
+        # conversions of the object that can fail on its *content* (decoding, parsing) must be attempts, like the
+        # dict()/list() attempts next to them: an unguarded one turns "degrade to repr" into an exception
+        from .common import protected_by
+        converters = ('dict', 'list', 'int', 'float', 'tuple', 'set', 'frozenset', 'sorted')
+        n_att = 0
+        for c in walk_body(de.node):
+            if not isinstance(c, ast.Call):
+                continue
+            fname = c.func.id if isinstance(c.func, ast.Name) else None
+            if fname is not None and fname not in converters:
+                # a local that ranges over converter callables:  for conv in (dict, list): ... conv(obj)
+                vals = assigned_value(de.node, fname)
+                its = [v for (_s, v, i) in vals if i == 'iter' and isinstance(v, (ast.Tuple, ast.List))]
+                if len(vals) == 1 and its and all(isinstance(e, ast.Name) and e.id in converters for e in its[0].elts):
+                    fname = its[0].elts[0].id
+                else:
+                    fname = None
+            if call_tail(c) in ('decode', 'loads', 'fromhex', 'unhexlify', 'b64decode') or fname in converters:
+                n_att += 1
+                h = protected_by(de, c, 'ValueError')
+                ok = (h is not None and not any(isinstance(x, ast.Raise) for x in ast.walk(h))) or _suppressed(de, c)
+                rep.check('R17.d', fkey(de, c), ok, 'conversion attempt %s is guarded (falls through to the next strategy)' % short(c, 40) if ok else
+                          'conversion %s in ClasticJSONEncoder.default is unguarded: a value it cannot convert (e.g. non-UTF-8 bytes) raises '
+                          'instead of degrading' % short(c, 60), simple, c)
+        if n_att < 2:
+            raise AnalysisError('ClasticJSONEncoder.default: conversion attempts not found')
+
+        # construction sites
+        def dev_arg(fi_, call):
+            return _call_arg(repo, fi_.mod if fi_ is not None else simple, call, 'dev_mode', fi_)
+
+        def popped_default(fi_, expr):
+            """(True, default) when expr reads the 'dev_mode' option: kwargs.pop/get('dev_mode', default) or a parameter."""
+            if isinstance(expr, ast.Call) and call_tail(expr) in ('pop', 'get') and expr.args and \
+                    isinstance(expr.args[0], ast.Constant) and expr.args[0].value == 'dev_mode':
+                return True, (_fold_const(repo, fi_, expr.args[1]) if len(expr.args) > 1 else None)
+            if isinstance(expr, ast.Name):
+                a = fi_.node.args
+                ps = a.posonlyargs + a.args
+                ds = dict(zip([p.arg for p in ps][len(ps) - len(a.defaults):], a.defaults))
+                ds.update((p.arg, d) for p, d in zip(a.kwonlyargs, a.kw_defaults) if d is not None)
+                if expr.id == 'dev_mode' and expr.id in fi_.params() and not assigned_value(fi_.node, expr.id):
+                    return True, (_fold_const(repo, None, ds[expr.id]) if expr.id in ds else None)
+                vals = assigned_value(fi_.node, expr.id)
+                if len(vals) == 1 and vals[0][2] is None and isinstance(vals[0][1], ast.expr) and not isinstance(vals[0][1], ast.Name):
+                    return popped_default(fi_, vals[0][1])
+            return False, None
+
+        def is_own_dev(fi_, expr):
+            """expr is the dev_mode of the instance under construction / in use: self.dev_mode, the dev_mode parameter, or a
+            local that is stored into self.dev_mode / reads the dev_mode option."""
+            if expr is None:
+                return False
+            if norm(expr) == 'self.dev_mode':
+                return True
+            if isinstance(expr, ast.Name):
+                if popped_default(fi_, expr)[0]:
+                    return True
+                return any(isinstance(s, ast.Assign) and norm(s.targets[0]) == 'self.dev_mode' and norm(s.value) == expr.id
+                           for s in stmts_of(fi_.node))
+            return False
+
+        br_init = simple.func('BasicRender.__init__')
+        sets = [s for s in stmts_of(br_init.node) if isinstance(s, ast.Assign) and norm(s.targets[0]) == 'self.dev_mode']
+        found = [popped_default(br_init, s.value) for s in sets]
+        if not sets:
+            raise AnalysisError('BasicRender.__init__: the assignment of self.dev_mode was not found')
+        ok = len(sets) == 1 and found[0][0] and found[0][1] is True
+        rep.check('R17.d', fkey(br_init, "kwargs.pop('dev_mode')"), ok, 'BasicRender defaults to dev_mode=True' if ok else
+                  'BasicRender no longer defaults dev_mode to True', simple, sets[0])
+        jr_in_br = [c for c in walk_body(br_init.node) if isinstance(c, ast.Call) and call_tail(c) == 'JSONRender']
+        ok = bool(jr_in_br) and all(is_own_dev(br_init, dev_arg(br_init, c)) for c in jr_in_br)
+        rep.check('R17.d', fkey(br_init, 'JSONRender(dev_mode=self.dev_mode)'), ok,
+                  'BasicRender builds its JSONRender with its own dev_mode' if ok else 'BasicRender does not forward dev_mode to JSONRender',
+                  simple, br_init.node)
+        jr_init = simple.func('JSONRender.__init__')
+        enc_calls = [c for c in walk_body(jr_init.node) if isinstance(c, ast.Call) and call_tail(c) == 'ClasticJSONEncoder']
+        ok = bool(enc_calls) and all(is_own_dev(jr_init, dev_arg(jr_init, c)) for c in enc_calls)
+        rep.check('R17.d', fkey(jr_init, 'ClasticJSONEncoder(dev_mode=...)'), ok,
+                  'JSONRender forwards dev_mode to its encoder' if ok else 'JSONRender does not forward dev_mode to the encoder',
+                  simple, jr_init.node)
+        # every encoder / JSON renderer constructed by a renderer class forwards the renderer's dev_mode
+        # (a subclass that rebuilds self.json_encoder without it silently leaves dev mode)
+        for q, fi_ in sorted(simple.functions.items()):
+            if fi_.cls is None or q in ('JSONRender.__init__', 'BasicRender.__init__'):
+                continue
+            for c in walk_body(fi_.node):
+                if isinstance(c, ast.Call) and call_tail(c) in ('ClasticJSONEncoder', 'JSONRender', 'JSONPRender'):
+                    dv = dev_arg(fi_, c)
+                    ok = dv is not None and (is_own_dev(fi_, dv) or _fold_const(repo, fi_, dv) is True)
+                    rep.check('R17.d', fkey(fi_, c), ok, 'encoder/renderer constructed with the instance\'s dev_mode' if ok else
+                              '%s constructs %s without forwarding dev_mode: unknown objects raise TypeError instead of degrading to repr'
+                              % (q, call_tail(c)), simple, c)
+        # and nobody re-binds the encoder of a renderer after construction
+        for q, fi_ in sorted(simple.functions.items()):
+            for s in stmts_of(fi_.node):
+                if isinstance(s, ast.Assign) and norm(s.targets[0]) == 'self.json_encoder' and q != 'JSONRender.__init__':
+                    v = s.value
+                    ok = isinstance(v, ast.Call) and is_own_dev(fi_, dev_arg(fi_, v))
+                    rep.check('R17.d', fkey(fi_, 'self.json_encoder'), ok, 're-bound encoder keeps dev_mode' if ok else
+                              '%s re-binds self.json_encoder without dev_mode' % q, simple, s)
+        enc_init = simple.func('ClasticJSONEncoder.__init__')
+        sets = [s for s in stmts_of(enc_init.node) if isinstance(s, ast.Assign) and norm(s.targets[0]) == 'self.dev_mode']
+        ok = len(sets) == 1 and popped_default(enc_init, sets[0].value)[0]
+        rep.check('R17.d', fkey(enc_init, 'self.dev_mode'), ok, 'encoder takes dev_mode from its keyword' if ok else
+                  'encoder no longer stores the dev_mode keyword', simple, enc_init.node)
+        for name, want_dev in (('render_basic', None), ('render_json_dev', True)):
+            vals = simple.assigns.get(name, [])
+            ok = len(vals) == 1 and isinstance(vals[0], ast.Call)
+            if ok:
+                dv = _call_arg(repo, simple, vals[0], 'dev_mode')
+                if want_dev is True:
+                    ok = dv is not None and repo.try_fold(dv, simple) is True
+                else:
+                    ok = call_name(vals[0]) == 'BasicRender' and (dv is None or repo.try_fold(dv, simple) is True)
+            rep.check('R17.d', '%s::%s' % (SIMPLE, name), ok, '%s is constructed in dev mode' % name if ok else
+                      '%s is not constructed in dev mode' % name, simple, vals[0] if vals else None)
+        tj = errors.func('HTTPException.to_json')
+        encs = [(tj, c) for c in walk_body(tj.node) if isinstance(c, ast.Call) and call_tail(c) == 'ClasticJSONEncoder']
+        # an encoder built once at module / class level and used by to_json
+        for n in walk_body(tj.node):
+            v = None
+            if isinstance(n, ast.Name) and isinstance(n.ctx, ast.Load) and len(errors.assigns.get(n.id, [])) == 1:
+                v = errors.assigns[n.id][0]
+            elif isinstance(n, ast.Attribute) and isinstance(n.value, ast.Name) and n.value.id in ('self', 'cls') and tj.cls is not None:
+                v = repo.class_attr(tj.cls, n.attr)[1]
+            if isinstance(v, ast.Call) and call_tail(v) == 'ClasticJSONEncoder':
+                encs.append((None, v))
+        if not encs:
+            raise AnalysisError('HTTPException.to_json: the ClasticJSONEncoder it encodes with was not found')
+        ok = all(_fold_const(repo, f_, _call_arg(repo, errors, c, 'dev_mode', f_)) is True if f_ is not None else
+                 repo.try_fold(_call_arg(repo, errors, c, 'dev_mode') or ast.Constant(value=None), errors) is True for f_, c in encs)
+        rep.check('R17.d', fkey(tj, 'ClasticJSONEncoder'), ok, 'error JSON is encoded in dev mode (never raises on odd details)' if ok else
+                  'HTTPException.to_json does not use a dev-mode encoder', errors, tj.node)
+
+    def g_labels():
+        # JSON renderer labels
+        for q, want in (('JSONRender.__call__', 'application/json'), ('JSONPRender.__call__', 'application/javascript')):
+            f = simple.func(q)
+            calls = [c for c in walk_body(f.node) if _is_response(simple, c)]
+            if not calls:
+                raise AnalysisError('%s: the Response it constructs was not found' % q)
+            mts = [_fold_const(repo, f, argn(c, 'mimetype', 3)) for c in calls]
+            ok = all(m == want for m in mts)
+            rep.check('R17.e', fkey(f, 'mimetype'), ok, '%s labels its body %s' % (q, want) if ok else
+                      '%s does not label its body %s (found %r)' % (q, want, mts), simple, f.node)
+
+
+    def safely(fn):
+        def group():
+            try:
+                return fn()
+            except AnalysisError:
+                raise
+            except RecursionError:
+                raise AnalysisError('%s: recursion limit reached in the checker' % fn.__name__)
+            except Exception as e:
+                import traceback
+                tb = traceback.extract_tb(e.__traceback__)[-1]
+                raise AnalysisError('%s: internal error in the rule (%s: %s at %s:%s)'
+                                    % (fn.__name__, type(e).__name__, e, tb.filename.rpartition('/')[2], tb.lineno))
+        group.__name__ = fn.__name__
+        return group
+    for g in (g_names, g_guess, g_render, g_serialize, g_encoder, g_labels):
+        rep.guard(safely(g))
+    # floors are checked after all groups ran, so that one unrecognised construct does not hide the others
+    for rule_, n_ in (('R17.c', 9),):
+        try:
+            rep.floor(rule_, n_)
+        except AnalysisError as e:
+            if not rep.gaps:
+                rep.gaps.append(str(e))
 
 
 def _gj_structural(rep, simple, gj, bnames, why):
